@@ -495,6 +495,27 @@ func (in *injector) fire(c *minicl.Compiler, ft Fault) {
 		c.B.Val(ft.Arg)
 		c.B.Call(1, false)
 		c.B.EndStmt()
+		if mod(ft.Arg, 2) == 1 {
+			// constructs opened and closed inside the virtual block
+			c.B.DefineVarStart(token.NoPos, fmt.Sprintf("zzV%d", in.n))
+			in.n++
+			c.B.Val(ft.Arg)
+			c.B.EndInit(1)
+			c.B.If()
+			c.B.Val(c.Pkg.Import("strconv").Ref("Itoa"))
+			c.B.Val(1)
+			c.B.Call(1, false)
+			c.B.Val("1")
+			c.B.BinaryOp(token.EQL)
+			c.B.Then()
+			c.B.VBlock()
+			c.B.Val(c.Pkg.Import("strconv").Ref("Itoa"))
+			c.B.Val(2)
+			c.B.Call(1, false)
+			c.B.EndStmt()
+			c.B.End()
+			c.B.End()
+		}
 		c.B.End()
 	case "inline_closure":
 		tyInt := types.Typ[types.Int]
